@@ -116,14 +116,22 @@ def run_nil_long(ctx, pt):
     M = (lsh.T0 * (n // len(lsh.T0) + 1))[:n]
     whole = ctx.attempt(lambda: Nilsimsa()(M))
 
-    def f():
+    def stream(final):
         o = Nilsimsa()
         p = 0
         for c in list(cuts) + [n]:
             o.update(M[p:c])
             p = c
-        return o.digest()
-    ctx.eq('C14/nilsimsa/long-stream-cuts', ctx.attempt(f), whole)
+        return final(o)
+
+    def oneshot(final):
+        o = Nilsimsa()
+        o.update(M)
+        return final(o)
+    state = lambda o: (o.count, tuple(o.dacc), tuple(o.seen[-4:]))
+    ctx.eq('C14/nilsimsa/long-stream-cuts', ctx.attempt(stream, lambda o: o.digest()), whole)
+    # the digest thresholds hide small count differences: compare the accumulators themselves (confluence on the state)
+    ctx.eq('C14/nilsimsa/long-stream-cuts/state', ctx.attempt(stream, state), ctx.attempt(oneshot, state))
 
 
 # ---- Nilsimsa: every cut at any byte position --------------------------------------------
